@@ -65,7 +65,7 @@ TInv ==
 \* One mutex section of a pending call (silent).
 TStep(p) ==
   /\ ~Idle(p) /\ ~done[p]
-  /\ LET r == Exec(cx, prog[p], stk[p], ldefs[p], cur[p].m # "fields")
+  /\ LET r == Exec(cx, prog[p], stk[p], ldefs[p], cur[p].m # "fields", racy[p])
          fin == r.pr = <<>> IN
      /\ cx' = r.c
      /\ prog' = [prog EXCEPT ![p] = r.pr]
